@@ -226,6 +226,19 @@ Theorem C04_rw_progress : forall sched, contract_from (rw_init, rw_locals) sched
 Proof. exact rw_progress. Qed.
 Print Assumptions C04_rw_progress.
 
+(* the same with the hypothesis stated on references instead of counts: no live reference of any kind (sender,
+   operation state, wrapper, temporary) to an earlier shared state exists — every earlier access was released or
+   dropped.  (With every thread idle this implies that the earlier shared states have count 0: each destructor ran to
+   its end and unlinked its successor.) *)
+Theorem C04_rw_progress_refs : forall sched, contract_from (rw_init, rw_locals) sched ->
+  let g := fst (rw_run sched) in let ls := snd (rw_run sched) in
+  (forall t, ls t = []) ->
+  forall e, tstarted (tok g e) = true ->
+  (forall e', alive (tst (tok g e')) = true -> tgrp (tok g e) <= tgrp (tok g e')) ->
+  In e (grant_toks (elog g)).
+Proof. exact rw_progress_refs. Qed.
+Print Assumptions C04_rw_progress_refs.
+
 (* the converse work-list invariant behind it, in every state reached by a contract-respecting schedule: every
    operation state inside start() / with a decided grant has its item on the owning thread's list; every shared
    state whose destructor is running has its WDn item on the list of the thread that brought the count to 0; a
